@@ -67,6 +67,14 @@ PROP = {'drive': ['Cff'], 'modules': ['SfntV.Props.C13'],
                  'FDSelect: 1..65 535 glyphs, FD indices < number of private dicts <= 256',
                  'DICT integers: int32; reals: nine-digit mantissa chosen by the float computation',
                  'widths are 16.16 fixed-point numbers, |w| <= 32767',
+                 'offset fixed point of Write: the model loop (writeLoop) has fuel 64 and the composition theorems take "writeFont returned a file" '
+                 'as hypothesis, i.e. they assume the iteration settles; that the real loop settles and that model and code agree on the '
+                 'settled layout is covered by the D stream cff.file.rt and the V stream cff.file.model on the sweep family (one-glyph simple '
+                 'and CID-keyed fonts with 1-3 FDs, string lengths swept so that every section offset crosses 107/108, 1131/1132, '
+                 '32767/32768; up to 6 passes observed); no convergence theorem',
+                 'encodings with 250..256 codes (contiguous, scrambled, partly ranged, range counts 1..256 around 127/128/129 and 255, '
+                 'supplements) are a fixed boundary family: D cff.encoding.rt on the real code, V against the model, whole fonts with 255/256 '
+                 'encoded glyphs; 256 glyphs in 256 ranges are refused by encodeEncoding (neither format can hold them), verdict only',
                  'SimpleDom (Proofs/CffFontRt.lean): one private DICT; a custom encoding vector has 256 entries, glyph ids '
                  'inside the font and contiguous, distinct glyph names (the domain of C13_encoding_roundtrip); Latin-1 byte strings, '
                  'first glyph .notdef with SID 0, SIDs below 65536, operands in the domains of the section theorems',
